@@ -224,6 +224,18 @@ class Conciliation(Observer):
                             self.violate('restart-more-than-one', dict(detail, process=ns),
                                          'restart-more-than-one')
                             break
+                # ... and at least one: "RESTART then starts one copy again". The start follows the last stop
+                # acknowledgement and precedes the return to OPERATION (the Starter is then busy). Nothing to start it on
+                # is reported as a forced FATAL
+                if any(s_ns == ns for s_ns, _i in stops) and not any(s_ns == ns for s_ns, _i, _t in ep['starts']):
+                    self._probe('restart_without_start_seen')
+                    app_o = inst.supvisors.context.applications.get(ns.split(':')[0])
+                    proc_o = app_o.processes.get(ns.split(':')[1]) if app_o else None
+                    if proc_o is not None:
+                        shown = proc_o.serial()
+                        if shown['statename'] in ('STOPPED', 'EXITED') and not proc_o.running_identifiers:
+                            self.violate('restart-not-started', dict(detail, process=ns, shown=shown['statename']),
+                                         'restart-not-started')
         # RESTART / RUNNING_FAILURE may legitimately cascade (starting failure strategy STOP, STOP_APPLICATION ...)
         if strategy in ('SENICIDE', 'INFANTICIDE', 'STOP'):
             extra = stops - ep['copies']
